@@ -5,7 +5,7 @@ package conversion
 // Contracts for the verifier in /verif (comment-only file; no declarations).
 
 //@ func fixedPartition(input, fraction, output1, output2)
-//@   locals nDays, idx, i, incoming
+//@   locals nDays, idx, i@loop, incoming
 //@   canary [C16.canary-partition] implies(input.len > 0, output1.at(0) == output2.at(0))
 //@   kernel
 //@   states none
@@ -21,7 +21,7 @@ package conversion
 //@   loop 0 invariant forall(t, 0, i, output1.at(t) == input.at(t)*fraction)
 
 //@ func variablePartition(input, fraction, output1, output2)
-//@   locals nDays, idx, i, incoming, frac
+//@   locals nDays, idx, i@loop, incoming, frac
 //@   kernel
 //@   states none
 //@   noalias
@@ -35,7 +35,7 @@ package conversion
 //@   loop 0 invariant forall(t, 0, i, output1.at(t) == input.at(t)*fraction.at(t))
 
 //@ func applyScaling(input, scale, output)
-//@   locals nDays, idx, i, incoming
+//@   locals nDays, idx, i@loop, incoming
 //@   kernel
 //@   states none
 //@   noalias
@@ -48,7 +48,7 @@ package conversion
 //@   loop 0 invariant forall(t, 0, i, output.at(t) == input.at(t)*scale)
 
 //@ func depthToRate(inputs, deltaT, area, outflows)
-//@   locals conversion, nDays, idx, i
+//@   locals conversion, nDays, idx, i@loop
 //@   kernel
 //@   states none
 //@   noalias
@@ -61,7 +61,7 @@ package conversion
 //@   loop 0 invariant forall(t, 0, i, outflows.at(t) == inputs.at(t) * (0.001 * area / deltaT))
 
 //@ func ratingPartition(input, nPts, inputAmount, proportion, output1, output2)
-//@   locals nDays, idx, i, incoming, frac, err
+//@   locals nDays, idx, i@loop, incoming, frac, err
 //@   kernel
 //@   states none
 //@   noalias
